@@ -457,6 +457,12 @@ func (s *Server) attachClient(cl *Client, listener string) error {
 	verifPoint("attach.afterInherit")
 	s.Clients.Add(cl) // [MQTT-4.1.0-1]
 	verifPoint("attach.afterClientsAdd")
+	select {
+	case <-s.done: // Close has started and may already have taken its snapshot of Clients: it would never disconnect this client
+		_ = s.DisconnectClient(cl, packets.ErrServerShuttingDown)
+		return packets.ErrServerShuttingDown
+	default:
+	}
 
 	err = s.SendConnack(cl, code, sessionPresent, nil) // [MQTT-3.1.4-5] [MQTT-3.2.0-1] [MQTT-3.2.0-2] &[MQTT-3.14.0-1]
 	if err != nil {
